@@ -47,10 +47,27 @@ func garblerWires() *fpai.SymSlice {
 	}}
 }
 
+// halfGateRef: circuit.encryptHalfReference when encryptHalf was shown to be its hand-inlined form
+// (halfGateByReference, decided once per run by PrepareModels); nil keeps encryptHalf uninterpreted.
+var halfGateRef *ssa.Function
+var halfGateWhy = "not decided"
+
+// PrepareModels decides, from the source of this run, which model the garbling interpreter uses for the
+// half-gate hash.
+func PrepareModels(p *load.Program) {
+	halfGateRef, halfGateWhy = halfGateByReference(p)
+}
+
 func newInterp(pa, pb bool) *fpai.Interp {
 	in := fpai.New(load.Module)
 	in.SBit = map[string]bool{"a0": pa, "b0": pb, "r": true}
 	fpai.OpaqueEncryptHalf(in)
+	if halfGateRef != nil {
+		ref := halfGateRef
+		in.Models[load.Module+"/circuit.encryptHalf"] = func(in *fpai.Interp, a []fpai.Val, _ ssa.CallInstruction) (fpai.Val, error) {
+			return in.Call(ref, a)
+		}
+	}
 	return in
 }
 
@@ -755,4 +772,15 @@ func histWeight(p *load.Program, fn *ssa.Function, hist *fpai.Obj, histVal ssa.V
 // isIndexPhi reports whether ph is the induction variable used to index the gate slice.
 func isIndexPhi(ph *ssa.Phi, ia *ssa.IndexAddr) bool {
 	return ia.Index == ssa.Value(ph)
+}
+
+// HalfGateModel reports which model of the half-gate hash this run's garbling interpreter uses.
+func HalfGateModel(p *load.Program, run *report.Run) {
+	const rule = "half-gate-hash-model"
+	run.Rule(rule, "circuit.encryptHalf is interpreted through circuit.encryptHalfReference when both, evaluated on symbolic 64-bit words (label methods and NewTweak inlined from their bodies, the cipher uninterpreted), return the same two words; otherwise it is an uninterpreted function — either way the rules using it are sound, the first model also relates it to encrypt/decrypt with a zero second label")
+	if halfGateRef != nil {
+		run.OK(rule, "circuit.encryptHalf", p.Rel(halfGateRef.Pos()), "the hand-inlined hash equals its reference on symbolic words: interpreted through the reference")
+	} else {
+		run.OK(rule, "circuit.encryptHalf", "", "kept uninterpreted: "+halfGateWhy)
+	}
 }
